@@ -28,9 +28,9 @@ KIND = {
 }
 
 
-def count_check(p):
-    """polarity of `reason_codes.size() != _num_topics` on the path: returns True if the counts
-    are known EQUAL, False if known different, None if untested; also the vector tested"""
+def count_checks(p):
+    """every `X.size() ==/!= _num_topics` established on the path: [(known equal?, X)]"""
+    out = []
     for c in p.conds():
         cmp_ = p.cmp(c)
         if cmp_ is None:
@@ -39,8 +39,8 @@ def count_check(p):
         for a, b in ((l, r), (r, l)):
             ca, cb = core(a), core(b)
             if is_call(ca, 'size') and is_member_of_this(cb, '_num_topics') and op in ('==', '!='):
-                return (op == '=='), ca.get('obj')
-    return None, None
+                out.append(((op == '=='), ca.get('obj')))
+    return out
 
 
 def run(fx, tier):
@@ -70,7 +70,8 @@ def run(fx, tier):
                 per_cls[f.cls] += 1
                 decs = [d for d, n in decode_on_path(p) if n == k['dec']]
                 ok_dec = len(decs) == 1 and opt_truth(p, (decs[0].b, decs[0].i)) is True
-                eq, vec = count_check(p)
+                counts = count_checks(p)
+                eq = True if any(e for e, _ in counts) and all(e for e, _ in counts) else (False if counts else None)
                 v.check(ok_dec and eq is True, 'R-CGRAPH', inst + ':success-edge',
                         'success-capable completion only after %s succeeded (%s) and the number of admitted '
                         'codes equals the number of requested topics (%s)' % (k['dec'], ok_dec, eq),
@@ -88,11 +89,21 @@ def run(fx, tier):
                     from_call = lambda t: contains(t, lambda n: n.get('_at') == at and n.get('k') in ('call', 'retof'))
                     src_ok = binding_of(p.arg(trcs[0], 0), 1, is_msg)
                     is_result = from_call(rc_full)
-                    counted = vec is not None and from_call(vec)
+                    counted = any(e and vec is not None and from_call(vec) for e, vec in counts)
                     ok_rc = src_ok and is_result and counted
+                    # the acknowledgement itself must carry one code per topic: the number of DECODED codes (before the
+                    # inadmissible ones are dropped) is compared with the number of topics as well — otherwise N + k codes
+                    # with k inadmissible ones pass as N admitted codes
+                    raw_counted = any(e and vec is not None and not from_call(vec) and binding_of(vec, 1, is_msg) for e, vec in counts)
                 v.check(ok_rc, 'R-FLOW', inst + ':reason-codes',
                         'handler receives to_reason_codes(codes of the decoded %s), the same vector whose size was compared'
                         % k['cat'].upper(), key='C14:R-FLOW:%s:reason-codes' % f.cls, where=c.where())
+                if len(trcs) == 1:
+                    v.check(raw_counted, 'R-FLOW', inst + ':code-count',
+                            'the number of reason codes IN the %s (before inadmissible ones are dropped) is known to equal the number of '
+                            'requested topics on this path; comparing only the admitted codes lets an acknowledgement with surplus '
+                            'inadmissible codes through' % k['cat'].upper(),
+                            key='C14:R-FLOW:%s:code-count' % f.cls, where=c.where())
                 ok_pr = binding_of(p.arg(c, 3), 0, is_msg)
                 v.check(ok_pr, 'R-FLOW', inst + ':props', 'handler receives the decoded properties',
                         key='C14:R-FLOW:%s:props' % f.cls, where=c.where())
@@ -178,6 +189,10 @@ def run(fx, tier):
                     is_rc, guarded, from_param, same_vec)
             v.check(ok, 'R-FLOW', '%s::to_reason_codes [%s]' % (f.cls, f.tu), why,
                     key='C14:R-FLOW:%s:to_reason_codes' % f.cls, where=f.file)
+    from c01 import fast_reply_rules
+    v.rule('R-DOM', 'early acknowledgements parked in the replies registry are purged before every stream write, stored only by dispatch(), used at most once')
+    fast_reply_rules(fx, v, 'C14')
+    v.expect_min('R-DOM', 8, 'fast-reply discipline')
     v.expect_min('R-CGRAPH', 10, 'success-capable completions of both siblings × TUs')
     v.expect_min('R-FLOW', 80, 'provenance sites')
     return v.finish(
